@@ -11,6 +11,7 @@ CONSTANTS
   Starts <- MCStarts
   ClockPoints <- MCClock
   SetModes = {"on", "off", "auto"}
+  SetPads = {"", "nl"}
   SetDays = {18251}
   Xs = {512, 513}
   Rates = {0, 512}
